@@ -14,6 +14,7 @@ type Step struct {
 	Tick int64  // ms to advance the virtual clock before the step
 	Kind string // "" = command; "sample" = one run of the background expiry sampler; "select" = embedded SelectDB
 	Db   int
+	At   string // replication driver only: "leader" pins the entry node ("" = chosen at random)
 }
 
 type Program struct {
@@ -120,7 +121,7 @@ func RunProgram(tr *Trace, run int, p Program, stats *SeqStats) error {
 		r = srv.relTimeReply(s.Cmd, r)
 		ev := map[string]any{
 			"ev": "cmd", "run": run, "now": now,
-			"db": strconv.Itoa(dbBefore), "cmd": toksJSON(s.Cmd), "r": r.JSON(),
+			"db": strconv.Itoa(dbBefore), "cmd": toksJSON(s.Cmd), "r": rjson(s.Cmd, r),
 		}
 		if r.T == "panic" || r.T == "hang" {
 			ev["st"] = []any{}
